@@ -78,6 +78,8 @@ pub trait OpDriver: Send + Sync {
     fn call<'a>(&'a self, s3: &'a dyn S3, alts: &'a [usize]) -> BoxFuture<'a, Result<AnyBox, S3Error>>;
     /// members of the recorded backend input that differ from the generated one ("body" = stream bytes)
     fn diff_input<'a>(&'a self, alts: &'a [usize], recorded: &'a BackendCall) -> BoxFuture<'a, Result<Vec<String>, String>>;
+    /// Debug rendering of an S3Request for this operation that carries credentials
+    fn request_debug_with_credentials(&self, access_key: &str, secret: &str) -> String;
     /// the typed result a scripted backend should return
     fn scripted_output(&self, alts: &[usize], status: Option<http::StatusCode>, headers: http::HeaderMap) -> AnyBox;
     /// members of a received S3Response<Output> (boxed) that differ from the generated output
@@ -129,6 +131,11 @@ where
             }
             Ok(d)
         })
+    }
+    fn request_debug_with_credentials(&self, access_key: &str, secret: &str) -> String {
+        let mut req = s3_request(self.input(&[]));
+        req.credentials = Some(s3s::auth::Credentials { access_key: access_key.to_owned(), secret_key: s3s::auth::SecretKey::from(secret) });
+        format!("{req:?} {:#?}", req.credentials)
     }
     fn scripted_output(&self, alts: &[usize], status: Option<http::StatusCode>, headers: http::HeaderMap) -> AnyBox {
         let mut r = S3Response::new(self.output(alts));
